@@ -49,23 +49,29 @@ theorem cleaner_compare_then_delete (ct : AMap Key Entry) (k : Key) (q : QVal) (
 theorem cleaner_only_deletes (queue : AMap Key QVal) (ct : AMap Key Entry) : Sub (clean ct queue) ct :=
   clean_sub queue ct
 
-/-- **Safety (partial: with the gap disjunct)**.  For every map, every timeout setting, every traffic
-between judgement and clean-up and every queue order: an entry the cleaner removes was judged idle
-past its timeout (itself, or its NAT pair through the reverse entry) and has not been touched since —
-EXCEPT that a forward entry whose `last_seen` equals its reverse entry's is removed on its own
-time stamp alone (`gap`), whatever happened to the reverse entry in between. -/
-theorem cleanup_safe_partial (t : Timeouts) (now tReal : Nat) (ct ct' : AMap Key Entry) (queue : AMap Key QVal)
-    (hq : ∀ kq ∈ queue, QSound t now ct kq)
+theorem traffic_of_sub {tReal : Nat} {ct a b : AMap Key Entry} (h : Traffic tReal ct b) (hs : Sub a b) :
+    Traffic tReal ct a := fun k e' he => h k e' (hs k e' he)
+
+theorem traffic_trans {tReal : Nat} {ct a b : AMap Key Entry} (h1 : Traffic tReal ct a) (h2 : Traffic tReal a b) :
+    Traffic tReal ct b := by
+  intro k e' he
+  rcases h2 k e' he with h | h
+  · exact h1 k e' h
+  · exact Or.inr h
+
+/-- **one atomic cleaner step is safe** on any map `cur` that evolved from the scanned map `ct` by
+traffic and earlier deletions. -/
+theorem clean_step_safe_partial (t : Timeouts) (now tReal : Nat) (ct cur : AMap Key Entry) (kq : Key × QVal)
+    (hs : QSound t now ct kq)
     (hold : ∀ k e, ct.get k = some e → e.lastSeen ≤ tReal)
     (hproto : ∀ k e, ct.get k = some e → k.proto ≠ 0)
-    (htr : Traffic tReal ct ct')
-    (x : Key) (e : Entry) (hx : ct'.get x = some e) (hd : (clean ct' queue).get x = none) :
-    Removal true t now ct ct' x e := by
-  obtain ⟨kq, hm, ct1, hsub, hg, hr⟩ := clean_deleted queue ct' x e hx hd
-  have hs := hq kq hm
+    (htr : Traffic tReal ct cur)
+    (x : Key) (e : Entry) (hg : cur.get x = some e) (hd : (cleanEntry cur kq.1 kq.2).get x = none) :
+    Removal true t now ct cur x e := by
+  have hr := cleanEntry_deleted cur kq.1 kq.2 x e hg hd
   unfold QSound at hs
-  -- an entry of ct' whose time stamp is one the scan read is an untouched entry of ct
-  have untouched : ∀ y ey e0, ct'.get y = some ey → ct.get y = some e0 → ey.lastSeen = e0.lastSeen → ct.get y = some ey := by
+  -- an entry of `cur` whose time stamp is one the scan read is an untouched entry of ct
+  have untouched : ∀ y ey e0, cur.get y = some ey → ct.get y = some e0 → ey.lastSeen = e0.lastSeen → ct.get y = some ey := by
     intro y ey e0 h1 h2 h3
     rcases htr y ey h1 with h | h
     · exact h
@@ -76,7 +82,7 @@ theorem cleanup_safe_partial (t : Timeouts) (now tReal : Nat) (ct ct' : AMap Key
     by_cases hdk : kq.2.other = dummyKey
     · rw [if_pos hdk] at hs
       obtain ⟨e0, he0, hl0, hj⟩ := hs
-      have hu := untouched _ e e0 hx he0 (by omega)
+      have hu := untouched _ e e0 hg he0 (by omega)
       have hee : e0 = e := by rw [he0] at hu; cases hu; rfl
       subst hee
       refine Or.inl ⟨he0, ?_⟩
@@ -95,8 +101,7 @@ theorem cleanup_safe_partial (t : Timeouts) (now tReal : Nat) (ct ct' : AMap Key
       intro h; rw [h] at hp; exact hp rfl
     rw [if_neg hdk] at hs
     obtain ⟨f, r, hf, hft, hfr, hr, hrl0, hre⟩ := hs
-    have hr1' : ct'.get kq.2.other = some r1 := hsub _ _ hr1
-    have hu := untouched _ r1 r hr1' hr (by omega)
+    have hu := untouched _ r1 r hr1 hr (by omega)
     have hrr : r1 = r := by rw [hr] at hu; cases hu; rfl
     subst hrr
     rcases hwhich with hxo | ⟨hxk, hrev⟩
@@ -108,7 +113,51 @@ theorem cleanup_safe_partial (t : Timeouts) (now tReal : Nat) (ct ct' : AMap Key
       subst hxk
       refine Or.inr ⟨r1, ?_, hre, ?_⟩
       · rw [hrev]; exact hr
-      · rw [hrev]; exact hr1'
+      · rw [hrev]; exact hr1
+
+/-- the maps the cleaner can see: packets may arrive before the pass and between any two of its
+(atomic) steps; the steps process queue items in any order, any number of times. -/
+inductive CleanRun (tReal : Nat) (ct : AMap Key Entry) (queue : AMap Key QVal) : AMap Key Entry → Prop
+  | start : CleanRun tReal ct queue ct
+  | traffic {cur cur' : AMap Key Entry} : CleanRun tReal ct queue cur → Traffic tReal cur cur' → CleanRun tReal ct queue cur'
+  | step {cur : AMap Key Entry} (kq : Key × QVal) : CleanRun tReal ct queue cur → kq ∈ queue →
+      CleanRun tReal ct queue (cleanEntry cur kq.1 kq.2)
+
+theorem CleanRun.traffic_from {tReal : Nat} {ct : AMap Key Entry} {queue : AMap Key QVal} {cur : AMap Key Entry}
+    (r : CleanRun tReal ct queue cur) : Traffic tReal ct cur := by
+  induction r with
+  | start => exact fun _ _ h => Or.inl h
+  | traffic _ h ih => exact traffic_trans ih h
+  | step kq _ _ ih => exact traffic_of_sub ih (cleanEntry_sub _ _ _)
+
+/-- **Safety under every interleaving of packets with the cleaner's steps** (partial: gap disjunct). -/
+theorem interleaved_cleanup_safe_partial (t : Timeouts) (now tReal : Nat) (ct : AMap Key Entry) (queue : AMap Key QVal)
+    (hq : ∀ kq ∈ queue, QSound t now ct kq)
+    (hold : ∀ k e, ct.get k = some e → e.lastSeen ≤ tReal)
+    (hproto : ∀ k e, ct.get k = some e → k.proto ≠ 0)
+    {cur : AMap Key Entry} (r : CleanRun tReal ct queue cur) (kq : Key × QVal) (hm : kq ∈ queue)
+    (x : Key) (e : Entry) (hg : cur.get x = some e) (hd : (cleanEntry cur kq.1 kq.2).get x = none) :
+    Removal true t now ct cur x e :=
+  clean_step_safe_partial t now tReal ct cur kq (hq kq hm) hold hproto r.traffic_from x e hg hd
+
+/-- **Safety (partial: with the gap disjunct)**.  For every map, every timeout setting, every traffic
+between judgement and clean-up and every queue order: an entry the cleaner removes was judged idle
+past its timeout (itself, or its NAT pair through the reverse entry) and has not been touched since —
+EXCEPT that a forward entry whose `last_seen` equals its reverse entry's is removed on its own
+time stamp alone (`gap`), whatever happened to the reverse entry in between. -/
+theorem cleanup_safe_partial (t : Timeouts) (now tReal : Nat) (ct ct' : AMap Key Entry) (queue : AMap Key QVal)
+    (hq : ∀ kq ∈ queue, QSound t now ct kq)
+    (hold : ∀ k e, ct.get k = some e → e.lastSeen ≤ tReal)
+    (hproto : ∀ k e, ct.get k = some e → k.proto ≠ 0)
+    (htr : Traffic tReal ct ct')
+    (x : Key) (e : Entry) (hx : ct'.get x = some e) (hd : (clean ct' queue).get x = none) :
+    Removal true t now ct ct' x e := by
+  obtain ⟨kq, hm, ct1, hsub, hg, hr⟩ := clean_deleted' queue ct' x e hx hd
+  have h := clean_step_safe_partial t now tReal ct ct1 kq (hq kq hm) hold hproto (traffic_of_sub htr hsub) x e hg hr
+  -- `Removal` mentions the current map only positively (an entry is still there): lift it from ct1 to ct'
+  rcases h with h | ⟨r, h1, h2, h3⟩
+  · exact Or.inl h
+  · exact Or.inr ⟨r, h1, h2, hsub _ _ h3⟩
 
 /-- the composition for a whole scan. -/
 theorem scan_then_clean_safe_partial (t : Timeouts) (now tReal : Nat) (ct ct' : AMap Key Entry)
@@ -251,6 +300,9 @@ example : ((clean nvCt (scan wT 1000 nvCt nvCt)).map (·.1)) = [⟨17, 9, 9, 9, 
 /-- with a reply packet in between, the pair (judged in pair mode: time stamps differ) survives entirely. -/
 example : ((clean (nvCt.set wkR { wR with lastSeen := 1001 }) (scan wT 1000 nvCt nvCt)).map (·.1)).length = 3 := by decide
 example : Traffic 1000 nvCt nvCt := fun _ _ h => Or.inl h
+/-- an interleaved run: the reply packet of the witness arrives, then a cleaner step. -/
+example : ∃ cur, CleanRun 1000 wct (scan wT 1000 wct wct) cur :=
+  ⟨_, (CleanRun.start.traffic witness_traffic).step (wkF, ⟨dummyKey, 100, 100⟩) (by decide)⟩
 /-- the hypotheses of `cleanup_live_normal` hold for the first entry of `nvCt`. -/
 example : expired wT 1000 6 { wF with typ := .normal, lastSeen := 10, revKey := dummyKey } = true := by decide
 
